@@ -2,6 +2,7 @@ package main
 
 import (
 	"fmt"
+	"regexp"
 	"strings"
 
 	"golang.org/x/tools/go/ssa"
@@ -19,6 +20,7 @@ func init() {
 }
 
 func c03(c *Ctx) {
+	c.walFrameReads("wal-frame/page-after-header")
 	p := c.P
 	call := func(n string) IM { return p.PlainCalls("litefs.(*DB)." + n) }
 	cw := "litefs.(*DB).CommitWAL"
@@ -289,4 +291,64 @@ func (c *Ctx) checksumIndexGuard(prefix string) {
 	if n < 3 {
 		c.fail(prefix+"/floor", rule, "three index sites into ignoredBlocks", why, fmt.Sprintf("%d found", n), n)
 	}
+}
+
+// walFrameReads: a WAL offset kept in DB.wal.frameOffsets (or returned by
+// readWALPageOffsets) is the offset of a frame, i.e. of its 24-byte header. Every
+// read positioned from such an offset either reads exactly the header or starts
+// at offset + 24 (shared by C03, C04, C10, C16, C17).
+func (c *Ctx) walFrameReads(key string) {
+	p := c.P
+	rule := "K6 Origin (frame offsets address the frame header)"
+	desc := "every read located through a WAL frame offset starts at offset + 24, unless it reads the 24-byte frame header itself"
+	why := "reading the page at the frame offset returns the header plus the first pageSize-24 bytes: checksums of removed pages fail (Exit 99), checkpoints and exports copy shifted pages"
+	src := regexp.MustCompile(`wal\.frameOffsets\)*\[|readWALPageOffsets\(`)
+	plus := regexp.MustCompile(`^\(.* \+ 24\)$|^\(24 \+ .*\)$`)
+	n := 0
+	var bad []string
+	for _, fn := range p.SrcFuncs() {
+		if !c.inScope(fn, []string{"litefs"}) {
+			continue
+		}
+		for _, b := range fn.Blocks {
+			for _, in := range b.Instrs {
+				cc := callCommon(in)
+				if cc == nil {
+					continue
+				}
+				idx := -1
+				switch p.CalleeName(cc) {
+				case "internal.ReadFullAt", "os.(*File).ReadAt":
+					idx = 2
+				case "os.(*File).Seek":
+					idx = 1
+				}
+				vals := callVals(in)
+				if idx < 0 || idx >= len(vals) {
+					continue
+				}
+				off := p.Render(vals[idx])
+				if !src.MatchString(off) {
+					continue
+				}
+				n++
+				if plus.MatchString(off) {
+					continue
+				}
+				if idx == 2 && p.Render(vals[1]) == "new([24]byte)[:24]" {
+					continue // the frame header itself
+				}
+				bad = append(bad, c.where(in)+": offset "+off)
+			}
+		}
+	}
+	if len(bad) > 0 {
+		c.fail(key, rule, desc, why, "page read at the frame offset itself: "+strings.Join(bad, "; "), n)
+		return
+	}
+	if n < 5 {
+		c.fail(key, rule, desc, why, fmt.Sprintf("only %d read site(s) located through frame offsets, expected >= 5 (matcher no longer recognises the construct)", n), n)
+		return
+	}
+	c.ok(key, rule, desc, n)
 }
